@@ -98,7 +98,12 @@ package commonmark
 //@   ensures[eof] !result ==> p.err != nil
 //@   ensures[latch] old(p.err) != nil ==> (p.err == old(p.err) && aliases(p.buf, old(p.buf)) && len(p.buf) == len(old(p.buf)) && bytesUnchanged())
 //@   callsite (io.Reader).Read: requires[open] p.err == nil && $recv == p.r
+//@   -- whatever error the reader returns (with or without data) is the one latched
+//@   ghost rdErr = p.err
+//@   callsite (io.Reader).Read: ghost rdErr = $result1
+//@   ensures[readerr] rdErr != 0 ==> p.err == rdErr
 //@   loop 0: invariant[idx] !isnil(p) && p.i == old(p.i) && 0 <= p.i && p.i <= len(p.buf) && eolEnd == -1 && (p.err == nil ==> p.r != nil) && p.r == old(p.r)
+//@   loop 0: invariant[readerr] p.err == rdErr
 //@   loop 0: invariant[len] len(p.buf) >= len(old(p.buf))
 //@   loop 0: invariant[kept] forall k in [0, len(old(p.buf))): p.buf[k] == old(p.buf[k])
 //@   loop 0: invariant[where] fresh(p.buf) || (aliases(p.buf, old(p.buf)) && cap(p.buf) == cap(old(p.buf)))
